@@ -161,6 +161,63 @@ class ResolveArgumentsDirectFirst(ResolveArguments):
                      want=want, unused=unused, both_spellings=False, r1=rd, r2=r1, relative_mention=True)
 
 
+class ResolveComponentPath(Target):
+    """'... by that reference's own value (a path ...)', 'equal names across stages': DataReference.resolve of a path reference
+    to a component gives THAT component's working directory (plus the file) -- also when another component of the same name,
+    in another stage, was resolved just before on the same storage (two looks, the real method twice)."""
+    prop = 'C10'
+    name = 'DataReference.resolve[component path]'
+    file = G
+    qualname = 'DataReference.resolve'
+    inline_class = {'this': (G, 'DataReference'), 'other': (G, 'DataReference')}
+    compare_return = False
+    trusted = ["rootStorage.workingDirectoryForComponent(stage, name) is that component's working directory"]
+    assumptions = ["producers stage0.gen and stage1.gen (equal names) and stage0.other; reference with or without a file; ref / copy"]
+
+    def _ref(self, stage, name, fileref, method):
+        pid = Obj('pid', identifier='stage%d.%s' % (stage, name), stageIndex=stage, componentName=name)
+        return Obj('dataref:stage%d.%s' % (stage, name), method=method, fileRef=fileref, producerName=name,
+                   stringRepresentation='stage%d.%s:%s' % (stage, name, method), absoluteReference='stage%d.%s:%s' % (stage, name, method),
+                   producerIdentifier=pid, _producerIdentifier=pid)
+
+    def setup(self, c):
+        method = c.one_of('method', ['ref', 'copy', 'link'])
+        fileref = c.one_of('file', [None, 'out.txt'])
+        first = c.one_of('resolved_before', ['nothing', 'stage1.gen', 'stage0.other'])
+        nodes = {}
+        for (st_, name) in ((0, 'gen'), (1, 'gen'), (0, 'other')):
+            nodes['stage%d.%s' % (st_, name)] = {'componentSpecification': Obj('spec', identification=Obj(
+                'cid', stageIndex=st_, componentName=name))}
+        storage = Obj('storage', workingDirectoryForComponent=Extern('workingDirectoryForComponent',
+                                                                       lambda c, s_, n_: '/inst/stages/stage%d/%s' % (s_, n_)),
+                      resolvePath=Extern('resolvePath', lambda c, p: '/inst/' + p))
+        graph = Obj('wg', _placeholders={}, graph=Obj('nx', nodes=nodes), rootStorage=storage)
+        this = self._ref(0, 'gen', fileref, method)
+        stage, name = (1, 'gen') if first == 'stage1.gen' else (0, 'other')
+        other = self._ref(stage, name, fileref, method)
+        return State(args=[this, graph], this=this, other=other, other_id=(stage, name), graph=graph, method=method, fileref=fileref,
+                     first=first)
+
+    def real_function(self):
+        return graph_mod.DataReference.resolve
+
+    def ensures(self, c, st, out):
+        if out.kind == 'raise':
+            return [('no-exception', False)]
+        tail = ('/' + st.fileref) if st.fileref else ''
+        cl = [('a-path-reference-resolves-to-its-own-producers-directory', out.value == '/inst/stages/stage0/gen' + tail)]
+        if st.first != 'nothing':
+            stage, name = st.other_id
+            # the REAL method on another reference of the same storage, after the first one was resolved
+            second = st.other.resolve(st.graph)
+            cl.append(('a-reference-resolved-afterwards-gets-ITS-producers-directory',
+                       second == '/inst/stages/stage%d/%s' % (stage, name) + tail))
+        return cl
+
+    def cross_compare(self, *a):
+        return []
+
+
 class DataReferencesOrder(Target):
     """ComponentSpecification.dataReferences: the list resolveArguments substitutes in order.  Direct (input) references
     come BEFORE component references -- the substitution loop relies on it: the relative spelling `A:ref` of a component
@@ -325,5 +382,6 @@ from pyvc.spec import shared as _shared
 import contracts.C09 as _c09
 REFERENCE_CLASSES = [_shared(_c09.DataReferenceClass(), 'C10'), _shared(_c09.ComponentIdentifierClass(), 'C10')]
 
-TARGETS = [ResolveArguments(), ResolveArgumentsDirectFirst(), ResolveArgumentsUnresolved(), ResolveOutputContents(), DataReferencesOrder()] + REFERENCE_CLASSES
+TARGETS = [ResolveArguments(), ResolveArgumentsDirectFirst(), ResolveArgumentsUnresolved(), ResolveOutputContents(), ResolveComponentPath(),
+           DataReferencesOrder()] + REFERENCE_CLASSES
 LEMMAS = []
